@@ -22,8 +22,10 @@ Step ==
               /\ \/ Ev.res = "ok" /\ via # "none"
                  \/ Ev.res = "commerr" /\ via = "none" /\ i = Len(A!Scan) + 1
      \/ A!NothingUsable /\ l' = l
-TSpec == TInit /\ [][Step]_vars
 Inv == A!NoDowngrade /\ A!ConnectedOnlyAsAllowed
+\* the invariants are part of the step: a trace leading to a violating state is rejected (and reported), TLC does not abort
+TStep == Step /\ Inv'
+TSpec == TInit /\ [][TStep]_vars
 Mark == /\ TLCSet(2, [TLCGet(2) EXCEPT ![tid] = IF @ < l THEN l ELSE @])
         /\ (l = Len(Traces[tid].ev) + 1 => TLCSet(1, TLCGet(1) \cup {tid}))
 Post == LET bad == (1..Len(Traces)) \ TLCGet(1) IN PrintT(<<"RESULT", Len(Traces), {<<t, TLCGet(2)[t]>> : t \in bad}>>)
